@@ -74,6 +74,7 @@ type workerOut struct {
 	Steps  int            `json:"steps"`
 	Progs  int            `json:"progs"`
 	Unspec int            `json:"unspec"`
+	Dead   int            `json:"dead"`
 	Tuples map[string]int `json:"tuples"`
 	Sample [][]string     `json:"sample"`
 }
@@ -149,6 +150,7 @@ func worker(o *common.Opts, cfg propCfg) {
 		out.Progs++
 		out.Steps += st.Steps
 		out.Unspec += st.Unspecified
+		out.Dead += st.DeadSteps
 		for k, v := range st.Tuples {
 			out.Tuples[k] += v
 		}
@@ -390,6 +392,7 @@ func main() {
 		agg.Progs += w.Progs
 		agg.Steps += w.Steps
 		agg.Unspec += w.Unspec
+		agg.Dead += w.Dead
 		for k, v := range w.Tuples {
 			agg.Tuples[k] += v
 		}
@@ -546,14 +549,15 @@ func main() {
 			"distinct_nontrivial": len(agg.Tuples),
 			"rule": cfg.rule + ": program i is a function of (seed, i); every step is executed by the real executor and by the reference model; " +
 				"distinct = distinct (command, arity+option set, type of the first key before the step, reply kind) tuples observed",
-			"samples":                         samples,
-			"commands_executed":               agg.Steps,
-			"steps_unspecified_resynced":      agg.Unspec,
-			"distinct_commands":               len(cmds),
-			"divergence_signatures":           len(sigs),
-			"known_finding_hits":              knownHits,
-			"violation_samples":               vioSamples,
-			"state_compared_after_every_step": true,
+			"samples":                    samples,
+			"commands_executed":          agg.Steps,
+			"steps_unspecified_resynced": agg.Unspec,
+			"keys_put_past_their_deadline_between_commands": agg.Dead,
+			"distinct_commands":                             len(cmds),
+			"divergence_signatures":                         len(sigs),
+			"known_finding_hits":                            knownHits,
+			"violation_samples":                             vioSamples,
+			"state_compared_after_every_step":               true,
 		},
 		Assumptions: []string{
 			"reference model written from the Redis command reference; open corners are accepted either way or re-synchronised (counted as steps_unspecified_resynced)",
